@@ -893,6 +893,55 @@ func childReent(sc scenario) resultJ {
 			}
 		}
 		res.StormKinds = []string{"LSimple XNil", "LSimple XNil"}
+	case "xsimple", "xbatch":
+		// an instrumented span exporter: its Shutdown (and, under a batch processor, its ExportSpans) starts and ends
+		// a sampled span through a tracer of the SAME provider, obtained beforehand
+		var tr trace.Tracer
+		exp := &instrSpanExp{inner: tracetest.NewInMemoryExporter(), st: st}
+		var sp sdktrace.SpanProcessor
+		if sc.Kinds[0] == "xsimple" {
+			sp = sdktrace.NewSimpleSpanProcessor(exp)
+		} else {
+			sp = sdktrace.NewBatchSpanProcessor(exp, batchSpanOpts(sc.Extra)...)
+		}
+		tp := sdktrace.NewTracerProvider(sdktrace.WithSpanProcessor(sp))
+		tr = tp.Tracer("instrumented-exporter")
+		st.do = func(string) {
+			_, nsp := tr.Start(ctx, "exporter-internal")
+			nsp.End()
+		}
+		user := tp.Tracer("t")
+		var spans []trace.Span
+		for _, o := range sc.Ops {
+			switch o.K {
+			case "start":
+				_, s1 := user.Start(ctx, "s")
+				spans = append(spans, s1)
+			case "end":
+				if o.P < len(spans) {
+					spans[o.P].End()
+				}
+			case "flush":
+				errs[errClass(tp.ForceFlush(ctx))] = true
+			}
+		}
+		switch sc.Extra % 3 { // no deadline anywhere
+		case 0:
+			errs[errClass(sp.Shutdown(ctx))] = true
+		case 1:
+			tp.UnregisterSpanProcessor(sp)
+		}
+		errs[errClass(tp.Shutdown(ctx))] = true
+		res.XShutdowns = []int{int(exp.xshut.Load())}
+		for e := range errs {
+			if e != "ENil" {
+				res.ShutErr = e
+			}
+		}
+		if res.ShutErr == "" {
+			res.ShutErr = "ENil"
+		}
+		return res
 	default: // metric: the periodic reader's exporter calls MeterProvider methods from its Shutdown
 		e, _ := stdoutmetric.New(stdoutmetric.WithWriter(out))
 		exp := &reentMetricExp{countMetricExp{id: 0, inner: e, rec: rec}, st}
@@ -953,10 +1002,28 @@ func childReent(sc scenario) resultJ {
 	return res
 }
 
+type instrSpanExp struct {
+	inner sdktrace.SpanExporter
+	st    *reentState
+	xshut atomic.Int64
+}
+
+func (e *instrSpanExp) ExportSpans(ctx context.Context, s []sdktrace.ReadOnlySpan) error {
+	e.st.enter("xexport")
+	return e.inner.ExportSpans(ctx, s)
+}
+func (e *instrSpanExp) Shutdown(ctx context.Context) error {
+	e.st.enter("xshutdown")
+	e.xshut.Add(1)
+	return e.inner.Shutdown(ctx)
+}
+
 // reentCoq: trace -> CStorm (processors 0 and 1 registered up front: exactly one Shutdown each; processor 2 may be
 // registered by a nested call: at most one), log -> CStormL, metric -> CStormM.
 func reentCoq(sc scenario, res *resultJ) string {
 	switch sc.Kinds[0] {
+	case "xsimple", "xbatch": // returned at all (watchdog otherwise), exporter shut down exactly once, nil errors
+		return fmt.Sprintf("CDStorm true %d [%s]", res.XShutdowns[0], res.ShutErr)
 	case "trace":
 		return fmt.Sprintf("CStorm [PCount; PCount; PCount] 2 1 %s [0;0;0] 0 %v %s %s", intsCoq(res.Shutdowns), res.FreshRec, res.ShutErr, res.ShutErr)
 	case "log":
@@ -966,8 +1033,8 @@ func reentCoq(sc scenario, res *resultJ) string {
 }
 
 func genReent(r *vgen.Rand) scenario {
-	prov := vgen.Pick(r, []string{"trace", "trace", "trace", "log", "metric"})
-	sc := scenario{Kind: "reent", Kinds: []string{prov}}
+	prov := vgen.Pick(r, []string{"trace", "trace", "trace", "log", "metric", "xsimple", "xsimple", "xbatch"})
+	sc := scenario{Kind: "reent", Kinds: []string{prov}, Extra: r.Intn(30)}
 	var cbs, calls []string
 	switch prov {
 	case "trace":
@@ -976,9 +1043,16 @@ func genReent(r *vgen.Rand) scenario {
 	case "log":
 		cbs = []string{"shutdown", "onend", "flush"}
 		calls = []string{"flush", "shutdown", "handle"}
+	case "xsimple": // nesting from ExportSpans would re-enter the simple processor's own (non-reentrant) exporter lock
+		cbs, calls = []string{"xshutdown"}, []string{"span"}
+	case "xbatch":
+		cbs, calls = []string{"xshutdown", "xexport"}, []string{"span"}
 	default:
 		cbs = []string{"shutdown"}
 		calls = []string{"flush", "handle"}
+	}
+	if prov == "xsimple" || prov == "xbatch" {
+		sc.Nest = append(sc.Nest, nestJ{CB: "xshutdown", Call: "span"})
 	}
 	for i := 0; i < r.Range(1, 4); i++ {
 		sc.Nest = append(sc.Nest, nestJ{CB: vgen.Pick(r, cbs), Call: vgen.Pick(r, calls)})
